@@ -670,6 +670,153 @@ Proof.
   apply assoc_N_In in E. apply (Ht (t, v) E).
 Qed.
 
+(** ** Reference counts (C05) *)
+
+Definition getc (m : PositiveMap.t N) (id : positive) : N :=
+  match PositiveMap.find id m with Some x => x | None => 0%N end.
+
+(** number of entries of [l] that point to the inner node [id] *)
+Definition refs_to (id : positive) (l : list ref) : nat := count_occ ref_eq_dec l (RN id).
+
+(** the references held by the handle list, and by the children of all stored nodes *)
+Definition handle_refs (s : snap) : list ref :=
+  map (fun h : N * edge => eref (snd h)) (s_handles s).
+
+Definition child_refs (s : snap) : list ref :=
+  flat_map (fun p : positive * node => map eref (nchildren (snd p)))
+           (PositiveMap.elements (s_nodes s)).
+
+Lemma child_refs_In : forall s r,
+  In r (child_refs s) <->
+  exists id nd e, find_node s id = Some nd /\ In e (nchildren nd) /\ eref e = r.
+Proof.
+  intros s r. unfold child_refs. rewrite in_flat_map. split.
+  - intros [[id nd] [Hp Hr]]. simpl in Hr. apply in_map_iff in Hr. destruct Hr as [e [He1 He2]].
+    exists id, nd, e. split; [apply find_node_elements; exact Hp | auto].
+  - intros [id [nd [e [E [He Hr]]]]]. exists (id, nd). split; [apply find_node_elements; exact E|].
+    simpl. apply in_map_iff. exists e. auto.
+Qed.
+
+(** the reference count of every stored node is the number of its owners:
+    handle entries, [extra] entries and child edges of stored nodes *)
+Definition rc_exact (s : snap) (extra : list edge) : Prop :=
+  forall id nd, find_node s id = Some nd ->
+    nrc nd = N.of_nat (refs_to id (handle_refs s) + refs_to id (map eref extra)
+                       + refs_to id (child_refs s)).
+
+Lemma bump_get : forall m r id,
+  getc (bump m r) id = (getc m id + N.of_nat (refs_to id [r]))%N.
+Proof.
+  intros m r id. unfold refs_to, getc. simpl count_occ.
+  destruct r as [t|j]; simpl bump.
+  - destruct (ref_eq_dec (RT t) (RN id)) as [E|_]; [discriminate|]. simpl. lia.
+  - destruct (ref_eq_dec (RN j) (RN id)) as [E|Hne].
+    + inversion E; subst j. rewrite PositiveMap.gss. simpl. lia.
+    + rewrite PositiveMap.gso by congruence. simpl. lia.
+Qed.
+
+Lemma refs_to_cons : forall id r l, refs_to id (r :: l) = refs_to id [r] + refs_to id l.
+Proof.
+  intros id r l. unfold refs_to. simpl. destruct (ref_eq_dec r (RN id)); reflexivity.
+Qed.
+
+Lemma refs_to_app : forall id l1 l2, refs_to id (l1 ++ l2) = refs_to id l1 + refs_to id l2.
+Proof. intros. unfold refs_to. apply count_occ_app. Qed.
+
+Lemma fold_bump_get : forall l m id,
+  getc (fold_left bump l m) id = (getc m id + N.of_nat (refs_to id l))%N.
+Proof.
+  induction l as [|r l IH]; intros m id; simpl fold_left.
+  - unfold refs_to. simpl. lia.
+  - rewrite IH, bump_get, (refs_to_cons id r l), Nat2N.inj_add. lia.
+Qed.
+
+Lemma fold_left_map_arg : forall (A B C : Type) (f : A -> B -> A) (g : C -> B) l a,
+  fold_left (fun m x => f m (g x)) l a = fold_left f (map g l) a.
+Proof. induction l as [|x l IH]; intros a; simpl; [reflexivity | apply IH]. Qed.
+
+Lemma fold_left_flat : forall (A B C : Type) (f : A -> B -> A) (g : C -> list B) l a,
+  fold_left (fun m p => fold_left f (g p) m) l a = fold_left f (flat_map g l) a.
+Proof.
+  induction l as [|x l IH]; intros a; simpl; [reflexivity|].
+  rewrite fold_left_app. apply IH.
+Qed.
+
+Lemma count_refs_get : forall s extra id,
+  getc (count_refs s extra) id =
+  N.of_nat (refs_to id (handle_refs s) + refs_to id (map eref extra) + refs_to id (child_refs s)).
+Proof.
+  intros s extra id. unfold count_refs.
+  rewrite (fold_left_map_arg _ _ _ bump (fun h : N * edge => eref (snd h))).
+  rewrite (fold_left_map_arg _ _ _ bump eref extra).
+  assert (Hin : forall l m,
+    fold_left (fun m p => fold_left (fun m' e => bump m' (eref e)) (nchildren (snd p)) m) l m =
+    fold_left bump (flat_map (fun p : positive * node => map eref (nchildren (snd p))) l) m).
+  { intros l m. rewrite <- (fold_left_flat _ _ _ bump).
+    revert m. induction l as [|x l IH]; intros m; simpl; [reflexivity|].
+    rewrite (fold_left_map_arg _ _ _ bump eref). apply IH. }
+  rewrite Hin. rewrite !fold_bump_get. unfold getc at 1. rewrite PositiveMap.gempty.
+  fold (handle_refs s). fold (child_refs s). rewrite !Nat2N.inj_add. lia.
+Qed.
+
+Theorem rc_exact_b_spec : forall s extra, rc_exact_b s extra = true <-> rc_exact s extra.
+Proof.
+  intros s extra. unfold rc_exact_b, rc_exact. rewrite forallb_forall. split.
+  - intros Hall id nd E. apply find_node_elements in E. specialize (Hall (id, nd) E). simpl in Hall.
+    apply N.eqb_eq in Hall. rewrite Hall. apply (count_refs_get s extra id).
+  - intros Hall [id nd] Hin. apply find_node_elements in Hin. simpl. apply N.eqb_eq.
+    rewrite (Hall id nd Hin). symmetry. apply (count_refs_get s extra id).
+Qed.
+
+Lemma no_dead_b_spec : forall s,
+  no_dead_b s = true <-> forall id nd, find_node s id = Some nd -> nrc nd <> 0%N.
+Proof.
+  intros s. unfold no_dead_b. rewrite forallb_forall. split.
+  - intros Hall id nd E. apply find_node_elements in E. specialize (Hall (id, nd) E). simpl in Hall.
+    apply negb_true_iff in Hall. apply N.eqb_neq. exact Hall.
+  - intros Hall [id nd] Hin. apply find_node_elements in Hin. simpl.
+    apply negb_true_iff. apply N.eqb_neq. apply (Hall id nd Hin).
+Qed.
+
+(** reachability through child edges from a list of root references *)
+Inductive reachable (s : snap) (roots : list ref) : ref -> Prop :=
+| reach_root : forall r, In r roots -> reachable s roots r
+| reach_child : forall id nd e,
+    reachable s roots (RN id) -> find_node s id = Some nd -> In e (nchildren nd) ->
+    reachable s roots (eref e).
+
+Lemma refs_to_pos_In : forall id l, 0 < refs_to id l -> In (RN id) l.
+Proof. intros id l Hp. apply (count_occ_In ref_eq_dec). exact Hp. Qed.
+
+(** with exact counts and no node of count 0, every stored node is reachable
+    from a handle or an [extra] owner (top-down induction on the level: a node
+    of the top-most populated level has no parent) *)
+Theorem no_dead_reachable : forall s extra, WF s ->
+  rc_exact_b s extra = true -> no_dead_b s = true ->
+  forall id nd, find_node s id = Some nd ->
+    reachable s (handle_refs s ++ map eref extra) (RN id).
+Proof.
+  intros s extra H Hrc Hnd. apply rc_exact_b_spec in Hrc.
+  pose proof (proj1 (no_dead_b_spec s) Hnd) as Hnz.
+  assert (Hind : forall k id nd, nlevel nd = k -> find_node s id = Some nd ->
+            reachable s (handle_refs s ++ map eref extra) (RN id)).
+  { induction k as [k IH] using lt_wf_ind. intros id nd Hk E.
+    pose proof (Hrc id nd E) as Hc. pose proof (Hnz id nd E) as Hz.
+    destruct (refs_to id (handle_refs s)) as [|a] eqn:Ea.
+    - destruct (refs_to id (map eref extra)) as [|b] eqn:Eb.
+      + destruct (refs_to id (child_refs s)) as [|c] eqn:Ec.
+        * exfalso. apply Hz. rewrite Hc. reflexivity.
+        * assert (Hin : In (RN id) (child_refs s)) by (apply refs_to_pos_In; lia).
+          apply child_refs_In in Hin. destruct Hin as [pid [pnd [e [Ep [He Hr]]]]].
+          destruct (wf_child s H pid pnd e Ep He) as [_ Hlt].
+          rewrite Hr, (rlevel_node s id nd E) in Hlt.
+          rewrite <- Hr. apply (reach_child s _ pid pnd e); auto.
+          apply (IH (nlevel pnd) ltac:(lia) pid pnd eq_refl Ep).
+      + apply reach_root. apply in_or_app. right. apply refs_to_pos_In. lia.
+    - apply reach_root. apply in_or_app. left. apply refs_to_pos_In. lia. }
+  intros id nd E. apply (Hind (nlevel nd) id nd eq_refl E).
+Qed.
+
 (** [WF] plus the terminal condition: the single hypothesis of the C01 theorems *)
 Definition WFfull (s : snap) : Prop := WF s /\ terms_kind s.
 
@@ -716,3 +863,37 @@ Example ex_snap_sem :
   sem_edge ex_snap (ex_edge (RN 3)) (fun _ => 0) = Some 1%N /\
   sem_edge ex_snap (ex_edge (RN 3)) (fun l => l) = Some 0%N.
 Proof. vm_compute. split; reflexivity. Qed.
+
+(** the BCDD / ZBDD hypotheses ([s_kind], [terms_kind]) are satisfiable too *)
+
+(* x0 xor x1 as a complemented edge to "x0 <-> x1"; one terminal *)
+Definition ex_bcdd : snap :=
+  mkSnap KBcdd
+    (PositiveMap.add 2%positive (mkNode 0 [mkEdge (RN 1) false; mkEdge (RN 1) true] 0 1)
+    (PositiveMap.add 1%positive (mkNode 1 [mkEdge (RT 0) false; mkEdge (RT 0) true] 1 2)
+       (PositiveMap.empty node)))
+    [(0%N, 1%N)]
+    [0; 1] [0; 1]
+    [(0%N, mkEdge (RN 2) true)].
+
+Example ex_bcdd_ok :
+  wf_full_b ex_bcdd = true /\ rc_exact_b ex_bcdd [] = true /\ no_dead_b ex_bcdd = true /\
+  sem_edge ex_bcdd (mkEdge (RN 2) true) (fun l => l) = Some 1%N.
+Proof. vm_compute. repeat split; reflexivity. Qed.
+
+(* the family { {level 0, level 1}, {} } *)
+Definition ex_zbdd : snap :=
+  mkSnap KZbdd
+    (PositiveMap.add 2%positive (mkNode 0 [ex_edge (RN 1); ex_edge (RT 1)] 0 1)
+    (PositiveMap.add 1%positive (mkNode 1 [ex_edge (RT 1); ex_edge (RT 0)] 1 1)
+       (PositiveMap.empty node)))
+    [(0%N, 0%N); (1%N, 1%N)]
+    [0; 1] [0; 1]
+    [(0%N, ex_edge (RN 2))].
+
+Example ex_zbdd_ok :
+  wf_full_b ex_zbdd = true /\ rc_exact_b ex_zbdd [] = true /\ no_dead_b ex_zbdd = true /\
+  sem_edge ex_zbdd (ex_edge (RN 2)) (fun _ => 0) = Some 1%N /\
+  sem_edge ex_zbdd (ex_edge (RN 2)) (fun _ => 1) = Some 1%N /\
+  sem_edge ex_zbdd (ex_edge (RN 2)) (fun l => l) = Some 0%N.
+Proof. vm_compute. repeat split; reflexivity. Qed.
